@@ -2,6 +2,7 @@ package harness
 
 import (
 	"fmt"
+	"time"
 	"sort"
 	"testing"
 	"testing/synctest"
@@ -55,6 +56,10 @@ func (a *simAggT) add(res *sim.Result) {
 	}
 	for _, st := range res.PreSites {
 		a.preSites[st] = struct{}{}
+	}
+	if res.TimeJumps > 0 {
+		a.stats["probe_runs_in_which_simulated_time_had_to_pass"]++
+		a.stats["simulated_clock_ms"] += int64(res.SimTime / time.Millisecond)
 	}
 	a.stats["sim_decisions"] += int64(res.Decisions)
 	a.stats["sim_switches"] += int64(res.Switches)
